@@ -428,24 +428,12 @@ def perCommitLines (k : Nat) (t : GTree) : List (Str × Str × Nat) :=
 def cumulativeLines (t : GTree) : List (Str × Str × Nat) :=
   treeTriples (fun l => decide (1 ≤ l.born)) t
 
-/-- Cherry-pick slow path (`rewrite_authorship_after_cherry_pick` step 2 onward) for the k-th
-    commit when the tracked files are identical pairwise: the state starts from the
-    attributions at the LAST SOURCE commit ("head"); only files changed by commits `≤ k` have
-    been re-derived from the commit's content (all their surviving AI lines of the range:
-    cumulative), files not yet changed still carry the head state. `changed` lists the paths
-    changed by commits `≤ k`. -/
-def slowLines (head tk : GTree) (changed : List Str) : List (Str × Str × Nat) :=
-  cumulativeLines (tk.filter (fun pf => changed.contains pf.1)) ++
-    cumulativeLines (head.filter (fun pf => !changed.contains pf.1))
-
-/-- Rebase slow path (`rewrite_authorship_after_rebase_v2` step 2 onward, after /repo 4fd233ae:
-    the running state is first transformed to the content at the first rewritten commit's
-    parent, so no head-state lines of untouched files survive): every AI line of the range
-    present in the k-th commit's tracked files (cumulative). -/
-def slowLinesRebase (tk : GTree) : List (Str × Str × Nat) := cumulativeLines tk
-
-def slowLinesFor (rebase : Bool) (head tk : GTree) (changed : List Str) : List (Str × Str × Nat) :=
-  if rebase then slowLinesRebase tk else slowLines head tk changed
+/-- Slow path (`rewrite_authorship_after_rebase_v2` / `rewrite_authorship_after_cherry_pick`,
+    step 2 onward; after /repo 4fd233ae and efdc0647 the running state is first transformed to
+    the content at the first rewritten commit's parent, so no head-state lines of untouched
+    files survive) for the k-th commit when the tracked files are identical pairwise: every AI
+    line of the range present in the commit's tracked files (cumulative). -/
+def slowLines (tk : GTree) : List (Str × Str × Nat) := cumulativeLines tk
 
 /-- the session a note (given as triples) names for line `j` of `path` (first match) -/
 def lookupLine (note : List (Str × Str × Nat)) (path : Str) (j : Nat) : Option Str :=
